@@ -84,7 +84,9 @@ def isReservedVerilogKeyword(str):
                     'noshowcancelled',
                     'pulsestyle_ondetect','pulsestyle_onevent',
                     'showcancelled','signed',
-                    'unsigned','use' ]
+                    'unsigned','use',
+                    'design',  # 1364-2001 configurations
+                    'uwire' ]  # 1364-2005
 
 
     reservedSV = ['accept_on','alias','always_comb','always_ff','always_latch','assert','assume',
